@@ -13,7 +13,7 @@ func GetNextMoment(now time.Time, hour, min, sec int) time.Time {
 	moment := time.Date(now.Year(), now.Month(), now.Day(), hour, min, sec, 0, time.Local)
 	// 如果要检查的时刻已经过了，则返回明天的这个时刻
 	if now.After(moment) || now.Equal(moment) {
-		moment = moment.AddDate(0, 0, 1)
+		moment = time.Date(now.Year(), now.Month(), now.Day()+1, hour, min, sec, 0, time.Local)
 	}
 	return moment
 }
